@@ -16,6 +16,11 @@ MOODS = [None, "happy", "lonely", "scary", "errory", "weird", ""]
 PHASES = ["pake", "version", "0", "1", "", "phäse", "p\x00q"]
 
 
+HOSTILE = ["", "\x00", "a\x00b", "ä", "a\u0308", "\U0001f600", "'", '"', "`", "\\", "%s", "?", "1; DROP TABLE messages;--",
+           "' OR '1'='1", "null", "None", "0", "-1", "１２", " ", "\n", "\u202e", "x" * 10000, "\ufeff", "%", "_",
+           "\ud7ff\ue000", "{}", "[]"]
+
+
 class GConn(object):
     def __init__(self, name):
         self.name = name
@@ -32,12 +37,21 @@ class GConn(object):
 class Gen(object):
     def __init__(self, seed, napps=2, nsides=3, steps=60, p_illegal=0.08, restarts=True,
                  use_time=True, explicit_sweeps=False, cross_app_mailboxes=False, max_conns=6,
-                 names=None, p_third=0.15, body_prefix="b", long_advances=True, list_cmd=True):
+                 names=None, p_third=0.15, body_prefix="b", long_advances=True, list_cmd=True, hostile=False):
         self.r = random.Random(seed)
         self.seed = seed
         self.apps = APPS[:napps]
         self.sides = SIDES[:nsides]
         self.names = names or NAMES
+        self.hostile = hostile
+        if hostile:
+            hs = list(HOSTILE)
+            self.r.shuffle(hs)
+            self.apps = hs[:napps]
+            self.r.shuffle(hs)
+            self.sides = hs[:nsides]
+            self.r.shuffle(hs)
+            self.names = hs[:6] + ["1", "2"]
         self.steps = steps
         self.p_illegal = p_illegal
         self.restarts = restarts
@@ -62,6 +76,8 @@ class Gen(object):
     def explicit_mb(self, app):
         i = self.apps.index(app)
         base = ["m1", "m2"]
+        if self.hostile:
+            base = [HOSTILE[(self.seed + 3) % len(HOSTILE)], HOSTILE[(self.seed + 11) % len(HOSTILE)]]
         if self.cross_app:
             return base
         return ["%s.%d" % (b, i) for b in base]
@@ -142,7 +158,7 @@ class Gen(object):
     def decorate(self, msg):
         r = self.r
         if r.random() < 0.35:
-            msg["id"] = r.choice(["i%d" % r.randrange(1000), "", "ïd"])
+            msg["id"] = r.choice(["i%d" % r.randrange(1000), "", "ïd"] + (HOSTILE if self.hostile else []))
         if r.random() < 0.08:
             msg[r.choice(["extra", "x", "server_tx", "orig"])] = r.choice([1, None, "v", [1, 2], {"a": 1}])
         return msg
@@ -236,7 +252,9 @@ class Gen(object):
 
     def do_add(self, c):
         r = self.r
-        msg = {"type": "add", "phase": r.choice(PHASES), "body": self.body()}
+        msg = {"type": "add", "phase": r.choice(HOSTILE if self.hostile else PHASES), "body": self.body()}
+        if self.hostile and r.random() < 0.3:
+            msg["body"] = msg["body"] + r.choice(HOSTILE)
         if r.random() < 0.2:
             msg["side"] = r.choice(self.sides + ["evil"])      # decoy
         self.emit("send", c.name, self.decorate(msg))
@@ -248,7 +266,7 @@ class Gen(object):
         if r.random() < 0.5:
             msg["mailbox"] = c.opened
         if r.random() < 0.8:
-            msg["mood"] = r.choice(MOODS)
+            msg["mood"] = r.choice(MOODS + (HOSTILE if self.hostile else []))
         self.emit("send", c.name, self.decorate(msg))
 
     def do_close_named(self, c):
